@@ -59,7 +59,7 @@ CHECKS = {
          "fold incl. multi-wrap overshoots, identity inside, momentum factor -1 exactly for odd reflection counts; a bounded "
          "trajectory run forward, negated and run again returns to its start (diagonal mass). Histories include save/load, rejected limit "
          "calls, the caller re-filling its start array, starts outside the bounds (refused by the constructor or else monitored), and constructor "
-         "arguments passed positionally / as lists / read-only / non-contiguous arrays (float32 inputs excluded: tolerances are double precision)."),
+         "arguments passed positionally / as lists / float32 / read-only / non-contiguous / Fortran-ordered arrays."),
    design_ref="DESIGN.md 3.3",
    note="Trusted: limits are only set where they contain the parameter's current value; reversibility is only demanded for scalar/vector mass (with a matrix mass component flips do not reverse the trajectory - see DESIGN.md, C01 finding)."),
  "C09": dict(
